@@ -297,7 +297,7 @@ HSPECS = [("dict", (("a",),), "none", "none"), ("dict", (("a", "b"),), "none", "
 def history_cases(tier):
     # events: (spec index, local?) ; every sequence of 3 (thorough 4) dump/load round trips on shared and per-class configs
     evs = [(i, local) for i in range(len(HSPECS)) for local in (False, True, "shared-table")]
-    L = 4 if tier == "thorough" else 3
+    L = 5 if tier == "thorough" else 3
     for seq in itertools.product(range(len(evs)), repeat=L):
         if tier == "quick" and len(set(seq)) == 1:
             continue
@@ -352,7 +352,7 @@ META = {
     "again with class names that start with one or two underscores; values: 13 representative "
     "hierarchies x each field over 17 values (primitives, containers, and values of subclass types: OrderedDict, Counter, dict/list/str/int subclasses, namedtuple) (all pairs for 2-field classes) x 8 contexts (top, containers, beans, 40 levels deep) x 6 paths (dump/load, dumps/loads, RPC parameter and result under "
     "1.0 and 2.0) x module-qualified / locally registered; serialize: serialisation-method classes (list args, dict args, custom method name) x 8 "
-    "attribute values x contexts x paths; singletons: 5 enum members, 7 Decimals and 3 fractions.Fraction objects (a slotted standard-library class) x contexts x paths; histories: every sequence of 3 (thorough 4) round trips "
+    "attribute values x contexts x paths; singletons: 5 enum members, 7 Decimals and 3 fractions.Fraction objects (a slotted standard-library class) x contexts x paths; histories: every sequence of 3 (thorough 5) round trips "
     "over 4 classes x {module-qualified, local in a table of its own, local re-registered under the same bare name in the shared table (newest registration wins)}; every case is non-trivial",
     "bounds": {"quick": {"depth": 2, "fields_per_level": 2}, "thorough": {"depth": 3, "fields_per_level": 2}},
     "assumptions": [
